@@ -63,7 +63,7 @@ func podTemplate(rev int) corev1.PodTemplateSpec {
 
 func (e *cloneSetEnv) get(w *World) *kruisev1alpha1.CloneSet {
 	cs := &kruisev1alpha1.CloneSet{}
-	if !w.S.Load(NS, WorkloadNm, cs) {
+	if !w.S.Load(w.NS, WorkloadNm, cs) {
 		return nil
 	}
 	return cs
@@ -71,7 +71,7 @@ func (e *cloneSetEnv) get(w *World) *kruisev1alpha1.CloneSet {
 
 func (e *cloneSetEnv) Fixture(w *World) error {
 	cs := &kruisev1alpha1.CloneSet{
-		ObjectMeta: metav1.ObjectMeta{Namespace: NS, Name: WorkloadNm},
+		ObjectMeta: metav1.ObjectMeta{Namespace: w.NS, Name: WorkloadNm},
 		Spec: kruisev1alpha1.CloneSetSpec{
 			Replicas: utilpointer.Int32(int32(w.Cfg.Replicas)),
 			Selector: &metav1.LabelSelector{MatchLabels: map[string]string{"app": WorkloadNm}},
@@ -97,7 +97,7 @@ func (e *cloneSetEnv) Fixture(w *World) error {
 func (e *cloneSetEnv) pods(w *World) []*corev1.Pod {
 	var out []*corev1.Pod
 	for _, k := range w.S.Keys() {
-		if k.Kind == "Pod" && k.Group == "" && k.Namespace == NS {
+		if k.Kind == "Pod" && k.Group == "" && k.Namespace == w.NS {
 			p := &corev1.Pod{}
 			if w.S.Load(k.Namespace, k.Name, p) && p.Labels["app"] == WorkloadNm {
 				out = append(out, p)
@@ -135,7 +135,7 @@ func (e *cloneSetEnv) createPod(w *World, cs *kruisev1alpha1.CloneSet, rev int, 
 	name := fmt.Sprintf("%s-p%04d", WorkloadNm, w.S.uid+1)
 	t := true
 	p := &corev1.Pod{
-		ObjectMeta: metav1.ObjectMeta{Namespace: NS, Name: name,
+		ObjectMeta: metav1.ObjectMeta{Namespace: w.NS, Name: name,
 			Labels: map[string]string{"app": WorkloadNm, "controller-revision-hash": revName(rev), "pod-template-hash": fmt.Sprintf("v%d", rev)},
 			OwnerReferences: []metav1.OwnerReference{{APIVersion: "apps.kruise.io/v1alpha1", Kind: "CloneSet", Name: cs.Name, UID: cs.UID, Controller: &t}},
 		},
